@@ -139,6 +139,15 @@ TraceNext ==
 
 TraceSpec == TraceInit /\ [][TraceNext]_tvars
 
+\* What the selection read and drew is history once the leg is queued or decided (PreferInserting is evaluated in
+\* the state right after Pick, where nothing is masked): states that differ only in that history are one state.
+Settled(x) == lpc[x] \in {"idle", "pending", "ok", "err", "stopped"}
+TraceView ==
+    <<svars, wrun, cancelled, loop, wst, flush, results, portion, rst, dsn, hdr, lnode, lmode, lpc, oob, l,
+      [x \in Leg |-> IF Settled(x) THEN 0 ELSE lpos[x]],
+      [x \in Leg |-> IF Settled(x) THEN <<>> ELSE lseen[x]],
+      [x \in Leg |-> IF lpc[x] \in {"idle", "ok", "err", "stopped"} THEN 0 ELSE lw[x]]>>
+
 \* acceptance (run with -workers 1, see Trace_Batcher)
 Accept ==
     (l = Len(TraceLog) + 1) => (PrintT("TRACE-ACCEPTED") /\ TLCSet("exit", TRUE))
